@@ -225,7 +225,7 @@ where
     // table-driven variant, tables from the crate's own 256-entry precomputation
     let limit = if G::NAME == "G1" { 12 } else { 4 };
     if b.bases.len() <= limit {
-        let mut pre = vec![G::Aff::zero(); 256 * b.bases.len()];
+        let mut pre = scratch_table::<G>(256 * b.bases.len());
         for (j, p) in b.bases.iter().enumerate() {
             cr("precomp_256", || G::op_precomp_256(p, &mut pre[j * 256..(j + 1) * 256]))?;
         }
